@@ -343,6 +343,7 @@ func main() {
 
 		// (root K): which spelling of the export path the server was created from; the
 		// model's Base is the cleaned path, so the item changes nothing there
+		times := drv.NewTimeOracle(sb.Export)
 		caseL := []sx.S{sx.Sym("seq"), sx.I(int64(umask)), sx.L(sx.Sym("root"), sx.I(int64(spelling)))}
 		obsL := []sx.S{sx.Sym("obs")}
 		prevTree := ""
@@ -389,6 +390,9 @@ func main() {
 			if bytes.Contains(data, []byte(drv.SentinelToken)) {
 				escapes++
 				r.Fail("ufs."+o.Kind+".outside-read", what+": returned the content of S/outside/sentinel", c, nil)
+			}
+			for _, tf := range times.After(sess, o, res, fids) {
+				r.Fail("ufs."+o.Kind+"."+tf[0], what+": "+tf[1], c, nil)
 			}
 			nOpenFiles := 0
 			for _, f := range fids {
